@@ -138,7 +138,8 @@ Changes a check missed when it was first run against them, and what was added so
   (`eventrace`); C13r7-2 (status actor exits on an undeliverable reply): clients hanging up while the reply is on its way, then
   further requests; C14r7-1 (host connection shared between client connections): several kept-alive clients in lock-step;
   C16r7-1 (temp file opened before the awaited collection): the deadline handler held at its last status read while the remaining
-  subsystems report and publish (`prov overlap`), with a reader polling `status.tag` for one inode showing two contents;
+  subsystems report and publish (`prov overlap`), with a reader polling `status.tag` for one inode showing two contents; the
+  inode-level model `Gpa.TagInodes` with `published_file_keeps_its_content` and the fact `tagTmpThenAwait` came with it;
   C16r7-2 (three separate reads of the flags): reported through the correspondence only (`no-failing-input-found`): the message
   trace of a query differs from the model's single `GetState`. Two changes to hook H3 in /repo came out of this round (a panic in
   the hook no longer poisons it; the hook closure runs outside its lock so that holding one actor does not hold the others).
